@@ -158,6 +158,12 @@ LADDERS = [
     ("LinearFourRates", "drift", {"time_decay_factor": 0.6, "warning_level": 0.3, "burn_in": 1, "num_mc": 20, "_salts": 2}, "detect_level", [0.2, 0.06, 0.05, 0.04, 0.02], 5, 6),
     ("HDDDM", "drift", {"detect_batch": 2, "statistic": "tstat", "subsets": 3, "_salts": 2}, "significance", [0.3, 0.06, 0.05, 0.04, 0.01], 4, 5),
     ("CDBD", "drift", {"detect_batch": 1, "statistic": "stdev", "subsets": 3, "_salts": 2}, "significance", [1, 1.9, 2, 2.1, 3], 4, 5),
+    # batches of 600 rows (degrees of freedom beyond 1000, a pooled reference of thousands of rows) with significance
+    # levels on both sides of 1/2 - anything that switches to another formula "for large samples" is invisible on 6 rows
+    ("HDDDM", "drift", {"detect_batch": 1, "statistic": "tstat", "subsets": 3, "_menu": "large"}, "significance", [0.95, 0.8, 0.5, 0.2, 0.05, 0.001], 4, 5),
+    ("CDBD", "drift", {"detect_batch": 2, "statistic": "tstat", "subsets": 3, "_menu": "large"}, "significance", [0.95, 0.8, 0.5, 0.2, 0.05, 0.001], 4, 5),
+    ("HDDDM", "drift", {"detect_batch": 3, "statistic": "stdev", "subsets": 3, "_menu": "large", "_container": "DataFrame"}, "significance", [0.1, 0.5, 1, 3], 4, 5),
+    ("KdqTreeBatch", "drift", {"bootstrap_samples": 10, "_menu": "large"}, "alpha", [0.6, 0.3, 0.1, 0.01], 3, 3),
     # warning clause: ladder tightest..loosest warning threshold
     # (ladders deliberately cross the drift value: a warning threshold stricter than the drift threshold is legal)
     ("DDM", "warning", {"n_threshold": 2, "drift_scale": 2}, "warning_scale", [3, 2.5, 1.5, 1], 13, 16),
